@@ -140,7 +140,7 @@ def run_check(pid, tier, seed):
     if hasattr(pm, "extra_obligations"):
         try:
             extra = pm.extra_obligations(L, S)
-            backends.discharge_all(extra, t_z3_ms=t_z3, t_cvc5_ms=t_z3, use_cvc5=True, parallel=False)
+            backends.discharge_all([v for v in extra if v.status is None], t_z3_ms=t_z3, t_cvc5_ms=t_z3, use_cvc5=True, parallel=False)
             for vc in extra:
                 all_vcs.append(types.SimpleNamespace(
                     name=vc.name, kind=vc.kind, role=vc.role, props=vc.props, where=vc.where, note=vc.note,
